@@ -470,6 +470,20 @@ package slip
 // a (quote x) form
 //@ define quoted(f, x, owner) = is(f, List) && live(as(f, List)) && idof(as(f, List)) != idof(owner) && len(as(f, List)) == 2 && as(f, List)[0] == box(quoteSymbol, Symbol) && as(f, List)[1] == x
 
+// The load form of a hash table sets every entry: key and value each go through
+// loadFormOf (nil stays nil, a symbol is quoted, anything else is built by its
+// own load form; an object without one is an error, never dropped silently).
+//@ func slip.loadFormOf
+//@   property C19
+//@   ensures nil-stays-nil: obj == nil ==> form == nil
+//@   ensures symbol-is-quoted: is(obj, Symbol) ==> (is(form, List) && len(as(form, List)) == 2 && as(form, List)[0] == box(quoteSymbol, Symbol) && as(form, List)[1] == obj)
+//@   ensures others-by-their-load-form: (obj != nil && !is(obj, Symbol)) ==> form == LoadForm(obj)
+//@ func slip.(HashTable).LoadForm
+//@   property C19
+//@   count-calls loadFormOf
+//@   on-call loadFormOf#1 the-key: $arg0 == k
+//@   on-call loadFormOf#2 the-value: $arg0 == v
+
 // The load form of a proper list is (list e1' ... en') where ei' is the load
 // form of ei; an element that is a symbol must be quoted: the form is
 // evaluated when it is loaded and a bare symbol would be read as a variable.
